@@ -549,7 +549,7 @@ fn unesc(s: &str) -> String {
 }
 
 /// Per-case CPU-time limit inside a worker (seconds); a case exceeding it is reported as a timeout
-pub const CASE_TIME_LIMIT_S: f64 = 5.0;
+pub const CASE_TIME_LIMIT_S: f64 = 10.0;
 
 /// Child side. Runs cases lo..hi of `case(idx, acc)`. In careful mode prints `B <idx>` (flushed) before each case.
 /// A watchdog thread exits the process with code 3 after printing `T <idx>` when one case exceeds the limit.
@@ -743,7 +743,10 @@ pub fn run_isolated(ctx: &Ctx, space: &str, total: u64, chunk: u64, extra: &[Str
                             match culprit {
                                 Some(idx) => {
                                     let (family, replay) = describe(idx);
-                                    let sig = if o.timed_out.is_some() { format!("timeout|{}", family) } else { format!("abort|{}|{}", signal_name(&o.status), family) };
+                                    // one class per family however the worker died: whether an input that exhausts a resource ends
+                                    // in a stack overflow, an allocation failure, the OOM killer or the CPU limit depends on the machine
+                                    let sig = format!("died|{}", family);
+                                    local.count(&format!("deaths_by_cause {}", if o.timed_out.is_some() { "cpu-limit".to_string() } else { signal_name(&o.status) }));
                                     local.cur_index = idx;
                                     local.evals += 1;
                                     local.violation(Violation {
